@@ -104,6 +104,9 @@ type WorkerOut struct {
 	Samples        []json.RawMessage   `json:"samples,omitempty"`
 	DistinctFull   int                 `json:"distinct_schedules_this_worker"`
 	HashTruncated  bool                `json:"hash_set_truncated"`
+	SweepCombos    int                 `json:"sweep_combinations_visited"`
+	SweepSpace     int                 `json:"sweep_combinations_total"`
+	SweepList      []uint64            `json:"sweep_combination_ids,omitempty"`
 	FoundAfterRuns int                 `json:"found_after_runs,omitempty"`
 	FoundAfterS    float64             `json:"found_after_s,omitempty"`
 	OracleEvals    map[string]int      `json:"oracle_evaluations,omitempty"`
@@ -280,6 +283,7 @@ func main() {
 	deadline := t0.Add(*budget)
 	hashes := map[uint64]struct{}{}
 	full := map[uint64]struct{}{}
+	combos := map[uint64]struct{}{}
 	const hashCap = 1 << 20
 	aborted := 0
 	w.FirstIdx = uint64(*worker)
@@ -299,6 +303,7 @@ func main() {
 		w.LastIdx = idx
 		if sweep {
 			w.SweepRuns++
+			combos[SweepCombo(idx)] = struct{}{}
 		}
 		w.Steps += int64(res.Steps)
 		w.SimTimeNS += float64(res.SimTime)
@@ -418,6 +423,11 @@ func main() {
 	}
 	w.WallS = time.Since(t0).Seconds()
 	w.DistinctFull = len(full)
+	w.SweepCombos, w.SweepSpace = len(combos), SweepSpace()
+	for c := range combos { // order irrelevant: the driver builds a set
+		w.SweepList = append(w.SweepList, c)
+	}
+	sort.Slice(w.SweepList, func(i, j int) bool { return w.SweepList[i] < w.SweepList[j] })
 	if *hashOut != "" {
 		hs := make([]uint64, 0, len(hashes))
 		for h := range hashes {
